@@ -4,9 +4,13 @@ LEVEL = 'proof'
 PROP = 'C03'
 MODULES = ['Netpoll.Props.C03']
 MANIFEST = dict(
-    text='Lean 4 theorems over the ownership ledger model of LinkBuffer: every pool block is freed at most once, only pool blocks are freed, a block is freed only when no chained node or live view refers to it, caller memory and private copies are never freed or written - for all operation sequences over any number of buffers, Slice readers and appended buffers. '
-         'Tied to the code by the instrumented allocator\'s event log (allocation sequence numbers, so pool reuse cannot hide anything) compared with the ledger model, and by checksums of caller memory.',
-    note='Known finding D4 (WriteDirect split shares one block between an unmanaged head and a managed tail) is listed in known_findings.jsonl and excluded by an explicit hypothesis. Correspondence is sampling. sync.Pool of node structs is modelled as "recycled once" only.',
-    technique='Lean 4 invariant proof over an ownership ledger model + instrumented-allocator event correspondence', design='§6 C03')
+    text='Lean 4 theorems over the ownership ledger model of LinkBuffer (Netpoll.Buf.Owner), for all operation sequences over any number of buffers, Slice readers and appended buffers, including Close with Slice readers outstanding: '
+         'every block is freed at most once (C03_free_once, unconditional, by counting ownership tokens); only pool blocks <= mallocMax are ever freed, never caller memory or private copies (C03_free_only_pool, C03_private_copy_never_freed, unconditional); '
+         'caller memory is never written (C03_caller_untouched_partial, hypothesis: book only on an input buffer); a block is freed only when no chained node of any reader refers to it and every node struct is recycled at most once '
+         '(C03_free_after_release_partial, C03_node_recycled_once_partial, under Cov: no WriteDirect split, see D4). '
+         'Tied to the code by the instrumented allocator: event log (allocation sequence numbers, so pool reuse cannot hide anything), per-node reference counts / blocks / origins compared op by op with the ledger model, checksums of caller memory.',
+    note='Known finding D4 (WriteDirect split shares one block between an unmanaged head and a managed tail) is listed in known_findings.jsonl, excluded by an explicit per-call hypothesis and proved as a witness (C03_D4_witness). '
+         'Correspondence is sampling. sync.Pool of node structs is modelled as a counter (recycled at most once); a struct is never reused by the model.',
+    technique='Lean 4 invariant proofs (typing, token counting, reference counts) over an ownership ledger model + instrumented-allocator event and node-ledger correspondence', design='§6 C03')
 def run(rep): ownrun.check(rep, PROP, ownrun.C03_KINDS, MODULES)
 def replay(rep, path): return ownrun.replay(rep, PROP, ownrun.C03_KINDS, path)
